@@ -54,6 +54,7 @@ type Knobs struct {
 	DoGivesUp       bool          // the HTTPClient gives up on its own account while it waits for the response (http.Client.Timeout): Do fails, the context is fine, and the transport may still be busy with the request
 	H1LateCloseSlow bool          // ... and the socket\'s close is slow in coming
 	H1Close         bool          // HTTP/1.1: the server closes the connection when request bytes keep coming after its answer (see runPump)
+	HandBuiltResp   bool          // the HTTPClient is an in-memory fake that builds its http.Response by hand and leaves ContentLength at its zero value, whatever the body holds
 	HoldAnswer      bool          // net/http's servers buffer: the answer leaves when the handler flushes, has written more than the buffer holds (2 KiB on HTTP/1.1, 4 KiB on HTTP/2), or returns - and an answer that is complete by then gets a Content-Length
 	UpScript        []int         // scripted read sizes (enumeration worlds); nil: use UpFrag
 	DownScript      []int
@@ -276,21 +277,21 @@ func (c *Call) RequestStart() time.Time { return c.requestStart }
 
 // Exchange is one HTTP request/response pair.
 type Exchange struct {
-	bodyIsConn          bool // 101 Switching Protocols: the response body is the connection itself
-	lateWindow          bool // between the two phases of an HTTP/1.1-over-TLS cancellation
-	LateWindows         int  // how often that window opened
-	upEOF               bool // the pump has seen the end of the request body
-	RespClose           bool // HTTP/1.1: the answer announces that the server will close the connection (it has given up on the request)
-	ConnClosedOnUpload  bool // HTTP/1.1: the server closed the connection on a client that kept uploading after the answer
-	everFlushed         bool // the handler called Flush
+	bodyIsConn          bool   // 101 Switching Protocols: the response body is the connection itself
+	lateWindow          bool   // between the two phases of an HTTP/1.1-over-TLS cancellation
+	LateWindows         int    // how often that window opened
+	upEOF               bool   // the pump has seen the end of the request body
+	RespClose           bool   // HTTP/1.1: the answer announces that the server will close the connection (it has given up on the request)
+	ConnClosedOnUpload  bool   // HTTP/1.1: the server closed the connection on a client that kept uploading after the answer
+	everFlushed         bool   // the handler called Flush
 	released            bool   // the answer's headers have left the server (always so at commit unless Knobs.HoldAnswer)
 	held                []byte // HoldAnswer: what the handler wrote and the server still buffers
 	HeldToEnd           bool   // HoldAnswer: the whole answer left at the handler's return
 	ComputedLength      int64  // the Content-Length net/http added to a held answer (-1: none)
-	written             int  // bytes the handler wrote
-	snapTrailers        bool // the headers as of the first write announced trailers (Trailer header or TrailerPrefix keys)
-	UnchunkedNoTrailers bool // HTTP/1.1: trailers were lost because the response was not chunked
-	uploadStopped       bool // HTTP/2, status above 299: the transport has stopped uploading the request body
+	written             int    // bytes the handler wrote
+	snapTrailers        bool   // the headers as of the first write announced trailers (Trailer header or TrailerPrefix keys)
+	UnchunkedNoTrailers bool   // HTTP/1.1: trailers were lost because the response was not chunked
+	uploadStopped       bool   // HTTP/2, status above 299: the transport has stopped uploading the request body
 	pumpInRead          bool
 	CtxNoticedLate      bool // the context finished while nobody was watching it; it was noticed when the request-body read returned
 	PumpErrLive         bool // the request body failed (not EOF) while the response was still open: stream reset
@@ -486,6 +487,9 @@ func (n *Net) Do(req *http.Request) (*http.Response, error) {
 	}
 	if e.ComputedLength >= 0 {
 		resp.ContentLength = e.ComputedLength
+	}
+	if c.K.HandBuiltResp {
+		resp.ContentLength = 0
 	}
 	announceTrailers(resp, c.K.DropTrailers)
 	resp.Close = e.RespClose
